@@ -55,6 +55,10 @@ class Obs:
             self.maxi(k, v)
 
     def record(self):
+        from pvmon import compare
+        for k, v in compare.STATS.items():      # comparisons refused by the comparison layer itself (counted, never silent)
+            self.counters[k] = self.counters.get(k, 0) + v
+        compare.STATS.clear()
         return {"violations": self.violations, "counters": self.counters, "maxima": self.maxima}
 
 
@@ -711,6 +715,12 @@ def mon_c10(net, obs, opts, passive=False):
             for idx in net[t].index:
                 if bool(net[t].at[idx, "in_service"]):
                     fixed_T.setdefault(int(net[t].at[idx, "flow_junction"]), []).append(float(net[t].at[idx, "t_flow_k"]))
+    creeping = {}
+    for t, idx, fk, tk in incidence(net):
+        if (t, idx) not in by_el:
+            for end in (fk, tk):
+                if end[0] == "j":
+                    creeping[end[1]] = creeping.get(end[1], 0) + 1
     inflow = {}
     for s in streams:
         if s["down"][0] == "j":
@@ -722,7 +732,9 @@ def mon_c10(net, obs, opts, passive=False):
         right = sum(s["m"] * 0.5 * (cp(s["tout"]) + cp(tm)) * (s["tout"] - tm) for s in lst)
         scale = sum(s["m"] * cp(tm) * (abs(s["tout"] - tm) + 1e-3) for s in lst)
         obs.count("mixing_junctions_%s" % ("1_inflow" if len(lst) == 1 else ("2_inflows" if len(lst) == 2 else "3plus_inflows")))
-        bound = (1e-6 if tight else 50 * tolT) * scale + 1e-6
+        # branches whose flow is below the stream threshold (1e-9 kg/s) are left out above but may still carry that much at
+        # any temperature of the network into the junction
+        bound = (1e-6 if tight else 50 * tolT) * scale + 1e-6 + creeping.get(j, 0) * 1e-9 * cp(tm) * 200.0
         obs.maxi("max_rel_mixing_residual", abs(right) / scale)
         if abs(right) > bound:
             # classification: the heat capacity evaluated at a heat capacity
@@ -742,6 +754,12 @@ def mon_c10(net, obs, opts, passive=False):
         # the feeder imposes its temperature on the fluid it feeds: judge when nothing else flows in
         if any(True for s in inflow.get(j, []) if s["table"] not in ("circ_pump_mass", "circ_pump_pressure")):
             obs.count("fixed_temperature_with_other_inflow_not_judged")
+            continue
+        # ... and judge only a feeder that feeds: fluid leaves its junction through some branch (a junction outside the
+        # calculation or without flow reports the ambient temperature by convention, asserted by the repository's own tests)
+        pj = net.res_junction.at[j, "p_bar"] if "p_bar" in net.res_junction.columns else float("nan")
+        if math.isnan(float(pj)) or not any(s["up"] == ("j", j) for s in streams if s["table"] not in ("circ_pump_mass", "circ_pump_pressure")):
+            obs.count("fixed_temperature_feeder_without_outflow_not_judged")
             continue
         obs.count("fixed_feed_temperatures")
         if abs(float(tj.at[j]) - vals[0]) > 1e-9:
@@ -850,7 +868,11 @@ def mon_c11(net, obs, opts, mode):
     # ---- loop closure per circulation pump (single-pump loops only)
     pumps = [(t, idx) for t in ("circ_pump_mass", "circ_pump_pressure") if has(net, t) for idx in net[t].index
              if bool(net[t].at[idx, "in_service"]) and (t, idx) in by_el]
-    if len(pumps) == 1 and not has(net, "ext_grid"):
+    # a loop that exchanges fluid with the outside (sinks, sources, storages) also exchanges heat there: not a closed loop
+    open_loop = any(has(net, t) and bool(net[t]["in_service"].any()) for t in ("sink", "source", "mass_storage"))
+    if len(pumps) == 1 and open_loop:
+        obs.count("loop_closure_not_judged_fluid_exchange")
+    if len(pumps) == 1 and not has(net, "ext_grid") and not open_loop:
         t, idx = pumps[0]
         q_pump = float(net["res_" + t].at[idx, "qext_w"])
         parts = 0.0
